@@ -8,7 +8,7 @@ def parseWatcher (j : Json) : Except String Watcher := do
   let id ← getNat j "id"
   return { id := id, params := ps, onlychanged := ← getBool j "onlychanged",
            queued := ← getBool j "queued", precedence := ← getInt j "precedence", body := ← getNat j "body",
-           cb := (getNat j "cb").toOption.getD id }
+           cb := (getNat j "cb").toOption.getD id, what := (getNat j "what").toOption.getD 0 }
 
 def parseKvs (j : Json) : Except String (List (Nat × Int)) := do
   (← j.getArr?).toList.mapM fun p => do
@@ -19,6 +19,7 @@ partial def parseStmt (j : Json) : Except String Stmt := do
   let body (k : String) : Except String (List Stmt) := do (← getArr j k).toList.mapM parseStmt
   match ← getStr j "s" with
   | "set" => return .set (← getNat j "p") (← getInt j "v")
+  | "setSlot" => return .setSlot (← getNat j "p") (← getNat j "k") (← getInt j "v")
   | "update" => return .update (← parseKvs (← j.getObjVal? "kvs"))
   | "updateCtx" => return .updateCtx (← parseKvs (← j.getObjVal? "kvs")) (← body "body")
   | "trigger" => return .trigger (← (← getArr j "ps").toList.mapM (·.getNat?))
@@ -41,15 +42,19 @@ def jNats (l : List Nat) : Json := Json.arr (l.map toJson).toArray
 
 partial def jItem : Item → Json
   | .call wid evs fl snap ch res => Json.mkObj [("t", "call"), ("w", toJson wid),
-      ("evs", Json.arr (evs.map fun e => Json.arr #[toJson e.name, toJson e.old, toJson e.new, jType e.type]).toArray),
+      ("evs", Json.arr (evs.map fun e => Json.arr #[toJson e.name, toJson e.old, toJson e.new, jType e.type, toJson e.what]).toArray),
       ("flush", Json.bool fl), ("snap", jInts snap), ("ch", Json.arr (ch.map jItem).toArray), ("res", jRes res)]
   | .stmt k p old new b tr regs ch res => Json.mkObj [("t", "stmt"), ("k", Json.str k), ("p", toJson p),
       ("old", toJson old), ("new", toJson new), ("b", Json.bool b), ("tr", Json.bool tr), ("regs", jNats regs),
       ("ch", Json.arr (ch.map jItem).toArray), ("res", jRes res)]
 
+def jSlots (n : Nat) (w : World) : Json :=
+  Json.arr ((List.range n).flatMap fun p => [1, 2].map fun k =>
+    Json.arr #[toJson p, toJson k, toJson (getSlot w p k)]).toArray
+
 def jWorld (w : World) : List (String × Json) := [
   ("vals", jInts w.vals), ("batch", Json.bool w.batch), ("trigger", Json.bool w.trigger),
-  ("events", Json.arr (w.events.map fun e => Json.arr #[toJson e.name, toJson e.old, toJson e.new]).toArray),
+  ("events", Json.arr (w.events.map fun e => Json.arr #[toJson e.name, toJson e.old, toJson e.new, toJson e.what]).toArray),
   ("queued", jNats (w.queued.map (·.id))), ("regs", jNats (w.regs.map (·.id)))]
 
 partial def parseItem (j : Json) : Except String Item := do
@@ -65,7 +70,8 @@ partial def parseItem (j : Json) : Except String Item := do
       let ty ← match ← q[3]!.getStr? with
         | "set" => pure EvType.set | "changed" => pure EvType.changed | "triggered" => pure EvType.triggered
         | s => throw s!"type {s}"
-      return ({ name := ← q[0]!.getNat?, old := ← q[1]!.getInt?, new := ← q[2]!.getInt?, type := ty } : TEv)
+      return ({ name := ← q[0]!.getNat?, old := ← q[1]!.getInt?, new := ← q[2]!.getInt?, type := ty,
+                what := (q[4]?.bind (fun x => x.getNat?.toOption)).getD 0 } : TEv)
     return .call (← getNat j "w") evs (← getBool j "flush") (← (← getArr j "snap").toList.mapM (·.getInt?)) ch res
   | _ =>
     return .stmt (← getStr j "k") (← getNat j "p") (← getInt j "old") (← getInt j "new") (← getBool j "b")
@@ -133,7 +139,8 @@ def handle (req : Json) : Except String Json := do
   let (_, revSteps, revRuns) := prog.foldl (fun (acc : World × List Json × List (World × Res × World × List Item)) s =>
       let (w, l, rs) := acc
       let (r, w', o) := run cfg fuel (.stmt s) w
-      (w', Json.mkObj ([("res", jRes r), ("items", Json.arr (o.map jItem).toArray)] ++ jWorld w') :: l,
+      (w', Json.mkObj ([("res", jRes r), ("items", Json.arr (o.map jItem).toArray),
+                         ("slots", jSlots cfg.nparams w')] ++ jWorld w') :: l,
         (w, r, w', o) :: rs)) (w0, [], [])
   let model := Json.mkObj [("steps", Json.arr revSteps.reverse.toArray)]
   -- oracle on the implementation's observation
